@@ -53,6 +53,8 @@ def misuse(case):
                        ('method set to multicomplex on n=3', lambda: _set(nd.Derivative(np.exp, method='central', n=3), method='multicomplex')(1.0)),
                        ('Residue order<=pole_order', lambda: Residue(np.sin, order=2, pole_order=2)),
                        ('unknown path', lambda: CStepGenerator(path='xyz')),
+                       ('fd_weights with n == len(x)', lambda: __import__('numdifftools.fornberg', fromlist=['x']).fd_weights(np.array([0.0, 1.0, 2.0]), 0.5, 3)),
+                       ('fd_weights_all with n == len(x)', lambda: __import__('numdifftools.fornberg', fromlist=['x']).fd_weights_all(np.array([0.0, 1.0]), 0.5, 2)),
                        ('unknown path "straight"', lambda: CStepGenerator(path='straight')),
                        ('unknown path "Spiral"', lambda: CStepGenerator(path='Spiral')),
                        ('unknown path "ray"', lambda: nd.limits.Limit(np.sin, path='ray')),
